@@ -4,6 +4,7 @@ with the structural and the cache-exactness monitors; enumeration must not panic
 the base schedule observably unchanged.
 -/
 import RSSched.Driver.Sched
+import RSSched.Model.Swaps
 namespace RSSched.Driver
 open RSSched Spec
 
@@ -18,6 +19,12 @@ def checkSwaps (c : Case) : VM Unit := do
   let mut kinds : List String := []
   -- split into schedule dumps: lines between "T cand"/"O start" markers and "S endsched"
   let mut cur : List Toks := []
+  let mut limit : Option Nat := none
+  let mut threshold : Option Nat := none
+  let mut baseInfo : SwapInfo := .noSwap
+  let mut modelCands : Option (List Swaps.Candidate) := none
+  let mut nCompared := 0
+  let mut candIdx := 0
   let mut label := "start"
   for t in c.lines do
     match t with
@@ -25,16 +32,48 @@ def checkSwaps (c : Case) : VM Unit := do
     | ["T", "baseunchanged", b] =>
       nSteps := nSteps + 1
       if b != "1" then vfail "C11" "base-changed-by-enumeration" label
-    | ["T", "candidates", n] => nCands := nCands + nat! n
+    | ["T", "nbparams", l, th] =>
+      limit := optNat l
+      threshold := optNat th
+    | ["T", "baseinfo", kind, v] =>
+      baseInfo := match kind with
+        | "spawn" => .spawnForMaintenance (vehTok v)
+        | "exchange" => .pathExchange (vehTok v)
+        | "hitch" => .hitchHiking (vehTok v)
+        | "remove" => .removeSingleNode (vehTok v)
+        | _ => .noSwap
+    | ["T", "candidates", n] =>
+      nCands := nCands + nat! n
+      -- correspondence: the model's neighbourhood of the implementation's base schedule
+      if let some mc := modelCands then
+        if mc.length != nat! n then
+          vdiff "C11" "model-candidate-count" s!"{label} impl={n} model={mc.length}"
     | "T" :: "cand" :: k :: txt =>
       label := s!"candidate {k} {" ".intercalate txt}"
+      candIdx := nat! k
       let kind := ((txt.headD "").takeWhile (· != '_')).toString
       if !(kinds.contains kind) then kinds := kind :: kinds
       cur := []
     | "S" :: rest =>
       cur := cur ++ [rest]
-      if rest == ["endsched"] then
+      if rest == ["endbase"] then
+        -- the base schedule of this step: enumerate the model's neighbourhood on it
+        let o := parseSched (cur.dropLast ++ [["endsched"]])
+        modelCands := match Swaps.neighborsOf nw limit threshold o.s baseInfo with
+          | .ok l => some l
+          | .error _ => none
+        if modelCands.isNone then vdiff "C11" "model-neighbourhood-faults" label
+        cur := []
+      else if rest == ["endsched"] then
         let o := parseSched cur
+        if label.startsWith "candidate" then
+          if let some mc := modelCands then
+            match mc[candIdx]? with
+            | some m =>
+              nCompared := nCompared + 1
+              let fs := Schedule.diffFields m.sched o.s
+              if !fs.isEmpty then vdiff "C11" s!"model-candidate-{fs.headD ""}" s!"{label} model-swap={m.text} fields={fs}"
+            | none => pure ()
         nDumped := nDumped + 1
         for d in scheduleValidDiffs nw o.s do vfail "C11,C10" s!"candidate-{d}" label
         for d in scheduleCacheDiffs nw o.s do vfail "C11,C09" s!"candidate-cache-{d}" label
@@ -45,5 +84,6 @@ def checkSwaps (c : Case) : VM Unit := do
   vstat "swaps.candidates" nCands
   vstat "swaps.dumped" nDumped
   vstat "swaps.kinds" kinds.length
+  vstat "swaps.model-compared" nCompared
 
 end RSSched.Driver
